@@ -104,6 +104,8 @@ func deepDump(x any, depth int) any {
 	return fmt.Sprintf("%T:%v", x, x)
 }
 
+var dumpIgnoreErr = false
+
 func cleanCfg(c any) any {
 	m, ok := c.(map[string]any)
 	if !ok {
@@ -111,7 +113,7 @@ func cleanCfg(c any) any {
 	}
 	out := map[string]any{}
 	for k, v := range m {
-		if k == "ldr" {
+		if k == "ldr" || (dumpIgnoreErr && (k == "err" || k == "errset")) {
 			continue
 		}
 		out[k] = v
@@ -279,6 +281,11 @@ func reflRecv(name string) (recv any, isStack bool) {
 		return mk(stk.And().SetFIFO(true).SetMutex().SetNegativeIndices(true).SetForwardIndices(true)), true
 	case "empty":
 		return stk.And(3), true
+	case "policies":
+		rej := func(...any) error { return errors.New("rejected by validity policy") }
+		inner := stk.Or().Push("x", "y").SetValidityPolicy(rej)
+		return mk(stk.And()).Push(inner).SetValidityPolicy(rej).SetPushPolicy(func(...any) error { return nil }).
+			SetPresentationPolicy(func(...any) string { return "P" }), true
 	case "cond":
 		return stk.Cond("kw", stk.Ne, "val").SetID("c").SetEncap(`'`), false
 	case "cond-stack":
@@ -291,7 +298,7 @@ func reflRecv(name string) (recv any, isStack bool) {
 	panic("unknown receiver " + name)
 }
 
-var reflStackRecvs = []string{"and", "or-sym", "not", "list", "basic", "fifo-mutex", "empty"}
+var reflStackRecvs = []string{"and", "or-sym", "not", "list", "basic", "fifo-mutex", "empty", "policies"}
 var reflCondRecvs = []string{"cond", "cond-stack", "cond-init"}
 
 func isZeroVal(v reflect.Value) bool {
@@ -353,6 +360,12 @@ func runRefl(raw json.RawMessage) (res *Result, err error) {
 	problems := []string{}
 	panicked := false
 	var records []any
+	dumpIgnoreErr = false
+	for _, c := range in.Calls {
+		if in.Mode == "ro" && c.Method == "SetErr" {
+			dumpIgnoreErr = true
+		}
+	}
 	before := deepDump(pv.Elem().Interface(), 0)
 	for _, c := range in.Calls {
 		m := pv.MethodByName(c.Method)
@@ -505,6 +518,10 @@ func nVariants(recv any, method string) int {
 
 var roExceptions = map[string]bool{"SetReadOnly": true, "ReadOnly": true, "SetErr": true, "Init": true}
 
+// in sequences SetErr may appear (documented exception): it may change the
+// error field and nothing else, and the instance must stay read-only
+var roSeqExceptions = map[string]bool{"SetReadOnly": true, "ReadOnly": true, "Init": true}
+
 func genRoReflect(ctx *Ctx, emit func(any, string)) {
 	sm := methodNames(&stk.Stack{})
 	cm := methodNames(&stk.Condition{})
@@ -533,6 +550,28 @@ func genRoReflect(ctx *Ctx, emit func(any, string)) {
 			}
 		}
 	}
+	// SetErr first (with a non-nil and with a nil error), then every other method once
+	for _, rn := range []string{"and", "cond"} {
+		r, isS := reflRecv(rn)
+		names := sm
+		if !isS {
+			names = cm
+		}
+		for ev := 0; ev < nVariants(r, "SetErr"); ev++ {
+			for _, m := range names {
+				if roSeqExceptions[m] || m == "SetErr" {
+					continue
+				}
+				nv := nVariants(r, m)
+				if nv > 2 {
+					nv = 2
+				}
+				for v := 0; v < nv; v++ {
+					emit(ReflInput{Mode: "ro", Recv: rn, Calls: []RCall{{"SetErr", ev}, {m, v}}}, "exhaustive")
+				}
+			}
+		}
+	}
 	// random sequences of up to 6 calls
 	n := ctx.N(150, 4000)
 	for i := 0; i < n; i++ {
@@ -549,7 +588,7 @@ func genRoReflect(ctx *Ctx, emit func(any, string)) {
 		var calls []RCall
 		for k := r.Range(2, 6); k > 0; k-- {
 			m := names[r.Intn(len(names))]
-			if roExceptions[m] {
+			if roSeqExceptions[m] {
 				continue
 			}
 			nv := nVariants(rv, m)
